@@ -1543,22 +1543,70 @@ impl Queue {
         out
     }
 }
-struct Pair { cli: ClientSession, srv: ServerSession, to_srv: Queue, to_cli: Queue, cev: Vec<ClientSessionEvent>, sev: Vec<ServerSessionEvent>, desc: String, sched: Sched, rng: Rng, tiny: bool, calls: u64, conn_seen: u32, reject_later_connects: bool, turn: bool }
+struct Pair { cli: ClientSession, srv: ServerSession, to_srv: Queue, to_cli: Queue, cev: Vec<ClientSessionEvent>, sev: Vec<ServerSessionEvent>, desc: String, sched: Sched, rng: Rng, tiny: bool, calls: u64, conn_seen: u32, reject_later_connects: bool, turn: bool, eager: Option<Eager> }
+// the EAGER application: no settling between phases, each side acts on an event in the turn it is raised (the client requests publish /
+// play the moment it sees the connection accepted, i.e. right behind the WindowAcknowledgement + SetChunkSize it has just queued; it sends
+// all items and the stop the moment publishing is accepted; the server sends all items the moment it has accepted the play request; the
+// client stops playback the moment the last item has arrived), and `connect` is sent before the server's start-up bytes were read
+struct Eager { publish: Option<u8>, key: String, items: Vec<It>, requested: bool, sent: bool, stopped: bool }
 impl Pair {
+    fn send_item(&mut self, i: usize, it: &It, publishing: bool, play_stream: u32) {
+        match it {
+            It::Meta(m) => {
+                if publishing { let cli = &mut self.cli; let r = guard("publish_metadata", || cli.publish_metadata(m).map(|x| vec![x])); self.c_out("publish_metadata", r); }
+                else { let srv = &mut self.srv; let r = guard("send_metadata", || srv.send_metadata(play_stream, m).map(|pk| vec![ServerSessionResult::OutboundResponse(pk)]).map_err(|e| format!("{}", e))); self.s_out("send_metadata", r); } }
+            It::Audio(ts, len, dr) | It::Video(ts, len, dr) => {
+                let video = matches!(it, It::Video(..)); let d = payload(*len, i as u8);
+                let (ts, dr) = (*ts, *dr);
+                if publishing { let cli = &mut self.cli; let r = guard("publish_*_data", || if video { cli.publish_video_data(Bytes::from(d), RtmpTimestamp::new(ts), dr) } else { cli.publish_audio_data(Bytes::from(d), RtmpTimestamp::new(ts), dr) }.map(|x| vec![x])); self.c_out(if video { "publish_video_data" } else { "publish_audio_data" }, r); }
+                else { let srv = &mut self.srv; let r = guard("send_*_data", || if video { srv.send_video_data(play_stream, Bytes::from(d), RtmpTimestamp::new(ts), dr) } else { srv.send_audio_data(play_stream, Bytes::from(d), RtmpTimestamp::new(ts), dr) }.map(|pk| vec![ServerSessionResult::OutboundResponse(pk)]).map_err(|e| format!("{}", e))); self.s_out(if video { "send_video_data" } else { "send_audio_data" }, r); }
+            }
+            It::Ping | It::PingBack => {
+                if matches!(it, It::Ping) == publishing { let cli = &mut self.cli; let r = guard("send_ping_request", || cli.send_ping_request().map(|t| vec![ClientSessionResult::OutboundResponse(t.0)])); self.c_out("send_ping_request", r); }
+                else { let srv = &mut self.srv; let r = guard("send_ping_request", || srv.send_ping_request().map(|t| vec![ServerSessionResult::OutboundResponse(t.0)]).map_err(|e| format!("{}", e))); self.s_out("send_ping_request", r); }
+            }
+        }
+    }
+    fn request_stream(&mut self, publish: Option<u8>, key: String) {
+        let cli = &mut self.cli;
+        let r = match publish { Some(m) => guard("request_publishing", || cli.request_publishing(key, match m { 0 => PublishRequestType::Live, 1 => PublishRequestType::Record, _ => PublishRequestType::Append }).map(|x| vec![x])), None => guard("request_playback", || cli.request_playback(key).map(|x| vec![x])) };
+        self.c_out(if publish.is_some() { "request_publishing" } else { "request_playback" }, r);
+    }
+    fn stop(&mut self, publishing: bool) { let cli = &mut self.cli; let r = if publishing { guard("stop_publishing", || cli.stop_publishing()) } else { guard("stop_playback", || cli.stop_playback()) }; self.c_out("stop", r); }
+    // the eager client application looks at the events of the call that just returned
+    fn react_client(&mut self, from: usize) {
+        let (mut accepted, mut pub_ok) = (false, false);
+        for e in &self.cev[from..] { match e { ClientSessionEvent::ConnectionRequestAccepted => accepted = true, ClientSessionEvent::PublishRequestAccepted => pub_ok = true, _ => () } }
+        let (publish, key, do_request, do_send, do_stop_play) = match &mut self.eager { None => return, Some(g) => {
+            let media_seen = self.cev.iter().filter(|e| matches!(e, ClientSessionEvent::AudioDataReceived { .. } | ClientSessionEvent::VideoDataReceived { .. } | ClientSessionEvent::StreamMetadataReceived { .. })).count();
+            let n_media = g.items.iter().filter(|i| !matches!(i, It::Ping | It::PingBack)).count();
+            let rq = accepted && !g.requested; if rq { g.requested = true; }
+            let sd = pub_ok && g.publish.is_some() && !g.sent; if sd { g.sent = true; }
+            let st = g.publish.is_none() && g.sent && !g.stopped && media_seen >= n_media; if st { g.stopped = true; }
+            (g.publish, g.key.clone(), rq, sd, st) } };
+        if do_request { self.request_stream(publish, key); }
+        if do_send { let items = self.eager.as_ref().map(|g| g.items.clone()).unwrap_or_default(); for (i, it) in items.iter().enumerate() { self.send_item(i, it, true, 0); } self.stop(true); if let Some(g) = &mut self.eager { g.stopped = true; } }
+        if do_stop_play { self.stop(false); }
+    }
+    fn react_server_play(&mut self, stream_id: u32) {
+        let items = match &mut self.eager { Some(g) if g.publish.is_none() && !g.sent => { g.sent = true; g.items.clone() } _ => return };
+        for (i, it) in items.iter().enumerate() { self.send_item(i, it, false, stream_id); }
+    }
     fn fail(&self, what: String) -> ! { witness(format!("[c02] {}: {} (after {} input calls)", self.desc, what, self.calls)) }
     fn c_out<E: std::fmt::Display>(&mut self, what: &str, r: Result<Result<Vec<ClientSessionResult>, E>, String>) {
         match r { Err(e) => self.fail(format!("client {}: {}", what, e)), Ok(Err(e)) => self.fail(format!("client {} failed: {}", what, e)),
-            Ok(Ok(rs)) => for r in rs { match r { ClientSessionResult::OutboundResponse(p) => self.to_srv.push(p.bytes), ClientSessionResult::RaisedEvent(e) => self.cev.push(e), _ => () } } }
+            Ok(Ok(rs)) => { let from = self.cev.len(); for r in rs { match r { ClientSessionResult::OutboundResponse(p) => self.to_srv.push(p.bytes), ClientSessionResult::RaisedEvent(e) => self.cev.push(e), _ => () } } if self.eager.is_some() && self.cev.len() > from { self.react_client(from); } } }
     }
     fn s_out(&mut self, what: &str, r: Result<Result<Vec<ServerSessionResult>, String>, String>) {
         let rs = match r { Err(e) => self.fail(format!("server {}: {}", what, e)), Ok(Err(e)) => self.fail(format!("server {} failed: {}", what, e)), Ok(Ok(rs)) => rs };
         let mut reqs = vec![];
-        for r in rs { match r { ServerSessionResult::OutboundResponse(p) => self.to_cli.push(p.bytes), ServerSessionResult::RaisedEvent(e) => { if let Some(id) = sreq_id(&e) { reqs.push((id, matches!(e, ServerSessionEvent::ConnectionRequested { .. }))); } self.sev.push(e); } _ => () } }
-        for (id, is_conn) in reqs {
+        for r in rs { match r { ServerSessionResult::OutboundResponse(p) => self.to_cli.push(p.bytes), ServerSessionResult::RaisedEvent(e) => { if let Some(id) = sreq_id(&e) { reqs.push((id, matches!(e, ServerSessionEvent::ConnectionRequested { .. }), if let ServerSessionEvent::PlayStreamRequested { stream_id, .. } = &e { Some(*stream_id) } else { None })); } self.sev.push(e); } _ => () } }
+        for (id, is_conn, play_sid) in reqs {
             let accept = if is_conn { self.conn_seen += 1; !(self.reject_later_connects && self.conn_seen > 1) } else { true };
             let srv = &mut self.srv;
             let r = if accept { guard("accept_request", || srv.accept_request(id).map_err(|e| format!("{}", e))) } else { guard("reject_request", || srv.reject_request(id, "NetConnection.Connect.Rejected", "only one connection").map_err(|e| format!("{}", e))) };
             self.s_out(if accept { "accept_request" } else { "reject_request" }, r);
+            if let Some(sid) = play_sid { self.react_server_play(sid); }
         }
     }
     fn deliver(&mut self, to_server: bool) {
@@ -1589,16 +1637,16 @@ fn meta_eq_desc(m: &StreamMetadata) -> String {
         o(&m.video_bitrate_kbps), o(&m.audio_codec_id), o(&m.audio_bitrate_kbps), o(&m.audio_sample_rate), o(&m.audio_channels), o(&m.audio_is_stereo),
         match &m.encoder { Some(e) => format!("({} bytes, sum {:x}) {:?}", e.len(), sum(e.as_bytes()), e.chars().take(24).collect::<String>()), None => "-".to_string() })
 }
-struct Scn { app: &'static str, expect_app: &'static str, key: &'static str, publish: Option<u8>, items: Vec<It>, ccs: u32, scs: u32, cw: u32, sw: u32, sched: Sched, seed: u64, double_connect: bool, drip: bool, name: String }
+struct Scn { app: &'static str, expect_app: &'static str, key: &'static str, publish: Option<u8>, items: Vec<It>, ccs: u32, scs: u32, cw: u32, sw: u32, sched: Sched, seed: u64, double_connect: bool, drip: bool, eager: bool, name: String }
 fn c02_run(s: &Scn) {
     let desc = format!("{} [{} app {:?} key {:?}{}; client chunk size {} window {}, server chunk size {} window {}; delivery {:?} seed {}{}]", s.name, match s.publish { Some(0) => "publish live", Some(1) => "publish record", Some(_) => "publish append", None => "play" }, s.app, s.key,
-        if s.double_connect { "; a second connect(\"other\") is sent before any answer and rejected by the server application" } else { "" }, s.ccs, s.cw, s.scs, s.sw, s.sched, s.seed, if s.drip { ", items interleaved with deliveries" } else { "" });
+        if s.double_connect { "; a second connect(\"other\") is sent before any answer and rejected by the server application" } else { "" }, s.ccs, s.cw, s.scs, s.sw, s.sched, s.seed, if s.eager { ", EAGER applications: connect is sent before the start-up bytes are read, every reaction is queued in the turn its event is raised, nothing settles in between" } else if s.drip { ", items interleaved with deliveries" } else { "" });
     ctx(format!("c02 {}", desc));
     let mut ccfg = ClientSessionConfig::new(); ccfg.chunk_size = s.ccs; ccfg.window_ack_size = s.cw;
     let mut scfg = ServerSessionConfig::new(); scfg.chunk_size = s.scs; scfg.window_ack_size = s.sw;
     let (srv, sinit) = match guard("ServerSession::new", || ServerSession::new(scfg)) { Ok(Ok(x)) => x, Ok(Err(e)) => witness(format!("[c02] {}: ServerSession::new failed: {}", desc, e)), Err(e) => witness(format!("[c02] {}: {}", desc, e)) };
     let (cli, cinit) = match guard("ClientSession::new", || ClientSession::new(ccfg)) { Ok(Ok(x)) => x, Ok(Err(e)) => witness(format!("[c02] {}: ClientSession::new failed: {}", desc, e)), Err(e) => witness(format!("[c02] {}: {}", desc, e)) };
-    let mut p = Pair { cli, srv, to_srv: Queue::new(), to_cli: Queue::new(), cev: vec![], sev: vec![], desc, sched: s.sched, rng: Rng(s.seed ^ 0xC02C02), tiny: std::cmp::min(s.cw, s.sw) < 100, calls: 0, conn_seen: 0, reject_later_connects: s.double_connect, turn: false };
+    let mut p = Pair { cli, srv, to_srv: Queue::new(), to_cli: Queue::new(), cev: vec![], sev: vec![], desc, sched: s.sched, rng: Rng(s.seed ^ 0xC02C02), tiny: std::cmp::min(s.cw, s.sw) < 100, calls: 0, conn_seen: 0, reject_later_connects: s.double_connect, turn: false, eager: if s.eager { Some(Eager { publish: s.publish, key: s.key.to_string(), items: s.items.clone(), requested: false, sent: false, stopped: false }) } else { None } };
     p.s_out("constructor", Ok(Ok(sinit))); p.c_out::<String>("constructor", Ok(Ok(cinit)));
     // ---- connect
     { let cli = &mut p.cli; let app = s.app.to_string(); let r = guard("request_connection", || cli.request_connection(app).map(|x| vec![x])); p.c_out("request_connection", r); }
@@ -1611,9 +1659,7 @@ fn c02_run(s: &Scn) {
     if n_acc != 1 { p.fail(format!("connect: the client raised {} ConnectionRequestAccepted events, expected exactly one; client events: {:?}", n_acc, p.cev.iter().map(|e| trunc(&cev(e), 80)).collect::<Vec<_>>())); }
     if s.double_connect && p.cev.iter().filter(|e| matches!(e, ClientSessionEvent::ConnectionRequestRejected { .. })).count() != 1 { p.fail("the rejected second connect was not reported to the client exactly once".into()); }
     // ---- publish or play
-    { let cli = &mut p.cli; let key = s.key.to_string();
-      let r = match s.publish { Some(m) => guard("request_publishing", || cli.request_publishing(key, match m { 0 => PublishRequestType::Live, 1 => PublishRequestType::Record, _ => PublishRequestType::Append }).map(|x| vec![x])), None => guard("request_playback", || cli.request_playback(key).map(|x| vec![x])) };
-      p.c_out(if s.publish.is_some() { "request_publishing" } else { "request_playback" }, r); }
+    if !s.eager { p.request_stream(s.publish, s.key.to_string()); }
     p.settle();
     let mut play_stream: u32 = 0;
     match s.publish {
@@ -1636,26 +1682,14 @@ fn c02_run(s: &Scn) {
     }
     // ---- media: client -> server while publishing, server -> client while the client plays
     let mut want: Vec<String> = vec![];
-    for (i, it) in s.items.iter().enumerate() {
-        let publishing = s.publish.is_some();
-        match it {
-            It::Meta(m) => { want.push(format!("metadata {}", meta_eq_desc(m)));
-                if publishing { let cli = &mut p.cli; let r = guard("publish_metadata", || cli.publish_metadata(m).map(|x| vec![x])); p.c_out("publish_metadata", r); }
-                else { let srv = &mut p.srv; let r = guard("send_metadata", || srv.send_metadata(play_stream, m).map(|pk| vec![ServerSessionResult::OutboundResponse(pk)]).map_err(|e| format!("{}", e))); p.s_out("send_metadata", r); } }
-            It::Audio(ts, len, dr) | It::Video(ts, len, dr) => {
-                let video = matches!(it, It::Video(..)); let d = payload(*len, i as u8);
-                want.push(format!("{} ts={} len={} sum={:x}", if video { "video" } else { "audio" }, ts, len, sum(&d)));
-                let (ts, dr) = (*ts, *dr);
-                if publishing { let cli = &mut p.cli; let r = guard("publish_*_data", || if video { cli.publish_video_data(Bytes::from(d), RtmpTimestamp::new(ts), dr) } else { cli.publish_audio_data(Bytes::from(d), RtmpTimestamp::new(ts), dr) }.map(|x| vec![x])); p.c_out(if video { "publish_video_data" } else { "publish_audio_data" }, r); }
-                else { let srv = &mut p.srv; let r = guard("send_*_data", || if video { srv.send_video_data(play_stream, Bytes::from(d), RtmpTimestamp::new(ts), dr) } else { srv.send_audio_data(play_stream, Bytes::from(d), RtmpTimestamp::new(ts), dr) }.map(|pk| vec![ServerSessionResult::OutboundResponse(pk)]).map_err(|e| format!("{}", e))); p.s_out(if video { "send_video_data" } else { "send_audio_data" }, r); }
-            }
-            It::Ping | It::PingBack => {
-                if matches!(it, It::Ping) == publishing { let cli = &mut p.cli; let r = guard("send_ping_request", || cli.send_ping_request().map(|t| vec![ClientSessionResult::OutboundResponse(t.0)])); p.c_out("send_ping_request", r); }
-                else { let srv = &mut p.srv; let r = guard("send_ping_request", || srv.send_ping_request().map(|t| vec![ServerSessionResult::OutboundResponse(t.0)]).map_err(|e| format!("{}", e))); p.s_out("send_ping_request", r); }
-            }
-        }
+    for (i, it) in s.items.iter().enumerate() { match it {
+        It::Meta(m) => want.push(format!("metadata {}", meta_eq_desc(m))),
+        It::Audio(ts, len, _) | It::Video(ts, len, _) => want.push(format!("{} ts={} len={} sum={:x}", if matches!(it, It::Video(..)) { "video" } else { "audio" }, ts, len, sum(&payload(*len, i as u8)))),
+        _ => () } }
+    if !s.eager { for (i, it) in s.items.iter().enumerate() {
+        p.send_item(i, it, s.publish.is_some(), play_stream);
         if s.drip { for _ in 0..p.rng.below(4) { if !p.step() { break; } } }
-    }
+    } }
     p.settle();
     let got = |p: &Pair| -> Vec<String> {
         if s.publish.is_some() { p.sev.iter().filter_map(|e| match e {
@@ -1683,7 +1717,7 @@ fn c02_run(s: &Scn) {
                 else { p.sev.iter().filter(|e| matches!(e, ServerSessionEvent::AudioDataReceived { .. } | ServerSessionEvent::VideoDataReceived { .. } | ServerSessionEvent::StreamMetadataChanged { .. })).count() };
     if stray != 0 { p.fail(format!("the sending side raised {} media events itself", stray)); }
     // ---- stop
-    { let cli = &mut p.cli; let r = if s.publish.is_some() { guard("stop_publishing", || cli.stop_publishing()) } else { guard("stop_playback", || cli.stop_playback()) }; p.c_out("stop", r); }
+    if !s.eager { p.stop(s.publish.is_some()); }
     p.settle();
     let fin: Vec<String> = p.sev.iter().filter_map(|e| match e { ServerSessionEvent::PublishStreamFinished { app_name, stream_key } => Some(format!("PublishStreamFinished({},{})", app_name, stream_key)), ServerSessionEvent::PlayStreamFinished { app_name, stream_key } => Some(format!("PlayStreamFinished({},{})", app_name, stream_key)), _ => None }).collect();
     let want_fin = vec![format!("{}({},{})", if s.publish.is_some() { "PublishStreamFinished" } else { "PlayStreamFinished" }, s.expect_app, s.key)];
@@ -1721,25 +1755,31 @@ fn mode_c02(seed: u64) {
     // 1. every chunk-size pair x window pair, publish and play, short item list, delivery model rotating with the seed
     let short = |k: u32| -> Vec<It> { let mut m = StreamMetadata::new(); m.video_width = Some(k); m.encoder = Some(format!("e{}", k));
         vec![It::Meta(m), It::Video(0, 0, false), It::Audio(0, 1, false), It::Video(T, 129, true), It::Ping, It::Audio(T - 1, 127, true), It::Video(0x1000000, 1, false), It::PingBack, It::Audio(5, 128, false), It::Meta(full_metadata()), It::Video(0x80000000, 2, false), It::Video(0xFFFFFFFF, 3, true), It::Video(7, 0, false)] };
+    // 0. EAGER applications (see struct Eager): chunk sizes below / above the 25-byte createStream body and the > 128-byte connect result
+    { let mut j = 0u64;
+      for &ccs in &[16u32, 50, 128, 4096] { for &scs in &[16u32, 50, 128, 4096] { for &sched in &[Sched::Whole, Sched::Random] { for publish in [Some((j % 3) as u8), None] {
+        j += 1; let w = [2_500_000u32, 100, 2_500_000, 1][(j % 4) as usize];
+        c02_run(&Scn { app: "live", expect_app: "live", key: "eager-key", publish, items: short(j as u32), ccs, scs, cw: w, sw: if j % 5 == 0 { 100 } else { w }, sched, seed: seed.wrapping_add(3000 + j), double_connect: false, drip: false, eager: true, name: format!("eager #{}", j) });
+      } } } } }
     let mut k = 0u32;
     for &ccs in &chunks { for &scs in &chunks { for &cw in &windows { for &sw in &windows {
         for publish in [Some((k % 3) as u8), None] {
             k += 1;
             let sched = scheds[((k as u64 + seed) % 3) as usize];
-            c02_run(&Scn { app: "live", expect_app: "live", key: "stream-key", publish, items: short(k), ccs, scs, cw, sw, sched, seed: seed.wrapping_add(k as u64), double_connect: false, drip: k % 2 == 0, name: format!("grid #{}", k) });
+            c02_run(&Scn { app: "live", expect_app: "live", key: "stream-key", publish, items: short(k), ccs, scs, cw, sw, sched, seed: seed.wrapping_add(k as u64), double_connect: false, drip: k % 2 == 0, eager: false, name: format!("grid #{}", k) });
         }
     } } } }
     // 3. metadata: every field Some / None combination that matters, boundary numbers, frame rates, encoder strings
     for (i, &(ccs, scs, cw, sw)) in [(4096u32, 4096u32, 2_500_000u32, 2_500_000u32), (1, 128, 100, 1), (128, 3, 1, 100)].iter().enumerate() { for &sched in &scheds { for publish in [Some(i as u8), None] {
-        c02_run(&Scn { app: "app/instance", expect_app: "app/instance", key: "key with spaces ✓", publish, items: c02_metadata_items(), ccs, scs, cw, sw, sched, seed: seed.wrapping_add(2000 + i as u64), double_connect: false, drip: true, name: "metadata variants".into() });
+        c02_run(&Scn { app: "app/instance", expect_app: "app/instance", key: "key with spaces ✓", publish, items: c02_metadata_items(), ccs, scs, cw, sw, sched, seed: seed.wrapping_add(2000 + i as u64), double_connect: false, drip: true, eager: false, name: "metadata variants".into() });
     } } }
     // 4. application name with ONE trailing slash: the server reports the normalised name (recorded deviation D-C02-slash); only the normalised name is checked
     for &sched in &scheds { for publish in [Some(0u8), None] {
-        c02_run(&Scn { app: "live/", expect_app: "live", key: "k", publish, items: short(1), ccs: 4096, scs: 4096, cw: 2_500_000, sw: 2_500_000, sched, seed, double_connect: false, drip: false, name: "application name with a trailing slash".into() });
+        c02_run(&Scn { app: "live/", expect_app: "live", key: "k", publish, items: short(1), ccs: 4096, scs: 4096, cw: 2_500_000, sw: 2_500_000, sched, seed, double_connect: false, drip: false, eager: false, name: "application name with a trailing slash".into() });
     } }
     // 5. a second connect from the same client while the first is unanswered, rejected by the server application: everything stays tagged with the accepted name
     for &sched in &scheds { for publish in [Some(0u8), None] { for &(cs, w) in &[(4096u32, 2_500_000u32), (2, 100)] {
-        c02_run(&Scn { app: "alpha", expect_app: "alpha", key: "k", publish, items: short(2), ccs: cs, scs: cs, cw: w, sw: w, sched, seed: seed.wrapping_add(7), double_connect: true, drip: true, name: "second connect rejected".into() });
+        c02_run(&Scn { app: "alpha", expect_app: "alpha", key: "k", publish, items: short(2), ccs: cs, scs: cs, cw: w, sw: w, sched, seed: seed.wrapping_add(7), double_connect: true, drip: true, eager: false, name: "second connect rejected".into() });
     } } }
     // 6. seeded random scripts and configurations
     for r in 0..40u64 {
@@ -1748,7 +1788,7 @@ fn mode_c02(seed: u64) {
             match rng.below(8) { 0 => items.push(rng.pick(&c02_metadata_items().iter().collect::<Vec<_>>()).clone()), 1 => items.push(It::Ping), 2 => items.push(It::PingBack),
                 3 | 4 => items.push(It::Audio(t, rng.pick(&sizes[..8]), rng.below(2) == 0)), _ => items.push(It::Video(t, if rng.below(6) == 0 { rng.pick(&sizes) } else { rng.pick(&sizes[..8]) }, rng.below(2) == 0)) } }
         let publish = match rng.below(6) { 0 | 1 => Some(0u8), 2 => Some(1), 3 => Some(2), _ => None };
-        c02_run(&Scn { app: "live", expect_app: "live", key: "rk", publish, items, ccs: rng.pick(&chunks), scs: rng.pick(&chunks), cw: rng.pick(&windows), sw: rng.pick(&windows), sched: rng.pick(&[Sched::Random, Sched::Random, Sched::Whole, Sched::Bytewise]), seed: seed.wrapping_add(5000 + r), double_connect: false, drip: rng.below(2) == 0, name: format!("random script #{}", r) });
+        c02_run(&Scn { app: "live", expect_app: "live", key: "rk", publish, items, ccs: rng.pick(&chunks), scs: rng.pick(&chunks), cw: rng.pick(&windows), sw: rng.pick(&windows), sched: rng.pick(&[Sched::Random, Sched::Random, Sched::Whole, Sched::Bytewise]), seed: seed.wrapping_add(5000 + r), double_connect: false, drip: rng.below(2) == 0, eager: false, name: format!("random script #{}", r) });
     }
     // 2. all payload sizes and timestamps of the statement, audio and video, under every delivery model
     let mut heavy = vec![];
@@ -1759,7 +1799,7 @@ fn mode_c02(seed: u64) {
     for (i, &(ccs, scs, cw, sw)) in cfgs.iter().enumerate() { for (j, &sched) in scheds.iter().enumerate() {
         if sched == Sched::Bytewise && i >= 6 && (i + j + seed as usize) % 2 == 0 { continue; }      // byte by byte over ~600 KB: every other configuration
         for publish in [Some(0u8), None] {
-            c02_run(&Scn { app: "live", expect_app: "live", key: "k", publish, items: heavy.clone(), ccs, scs, cw, sw, sched, seed: seed.wrapping_add(1000 + i as u64), double_connect: false, drip: j == 1, name: format!("all sizes and timestamps, configuration #{}", i) });
+            c02_run(&Scn { app: "live", expect_app: "live", key: "k", publish, items: heavy.clone(), ccs, scs, cw, sw, sched, seed: seed.wrapping_add(1000 + i as u64), double_connect: false, drip: j == 1, eager: false, name: format!("all sizes and timestamps, configuration #{}", i) });
         }
     } }
 }
